@@ -118,6 +118,13 @@ func (f *FakeReg) SetManifest(repoTag string, m []byte) {
 	f.mu.Unlock()
 }
 
+// Count returns how many requests of a kind arrived since the last SetPlan.
+func (f *FakeReg) Count(kind string) int {
+	f.mu.Lock()
+	defer f.mu.Unlock()
+	return f.counts[kind]
+}
+
 func (f *FakeReg) Requests() []ReqRec {
 	f.mu.Lock()
 	defer f.mu.Unlock()
@@ -209,7 +216,13 @@ func (f *FakeReg) serveReg(w http.ResponseWriter, r *http.Request) {
 	p := r.URL.Path
 	switch {
 	case p == "/token":
-		_, ft := f.next("token", r)
+		n, ft := f.next("token", r)
+		if n > 3000 {
+			// circuit breaker: a client that keeps asking for tokens (e.g. because it answers the token endpoint's
+			// own 401 with another token request) is cut off, so that the attempt ends and the count can be judged
+			w.WriteHeader(500)
+			return
+		}
 		if ft != nil && f.commonFault(w, r, ft) {
 			return
 		}
